@@ -382,6 +382,8 @@ func m3GenCase(r *Rng, pf m3Profile, idx int) *m3Case {
 		if cs.includeHost {
 			cs.common["host"] = "configured-host"
 		}
+	case 3: // a host tag configured by hand, whatever IncludeHost says
+		cs.common["host"] = "configured-host"
 	}
 	if r.Chance(20) {
 		cs.service = m3TagStr(r) + "s"
